@@ -1,33 +1,57 @@
-"""Tape minimisation: shrink a failing run while the same violation class persists."""
-from .run import execute
+"""Tape minimisation: shrink a failing run while the same violation class persists.
+
+Every candidate is executed in a forked child, preceded by the runs that
+preceded the failing run in its worker chunk (`prefix`), because process state
+(caches, global RNG, allocator history) may be part of what makes it fail.  The
+prefix is dropped first if the run fails on its own, else shrunk like a tape."""
+from .run import execute_isolated
 
 CANON_FIRST = ('sched', 'mpi', 'gomp', 'pool', 'fault', 'poison')
 
 
-def minimise(prop_mod, tape, vclass, tier='quick', budget=300, opts=None):
-    """Returns (tape, result, executions)."""
+def minimise(prop_mod, tape, vclass, tier='quick', budget=300, opts=None, prefix=()):
+    """Returns (tape, prefix, result, executions)."""
     state = {'n': 0}
     best = {k: list(v) for k, v in tape.items()}
+    prefix = list(prefix)
 
-    def fails(cand):
+    def fails(cand, pre):
         if state['n'] >= budget:
             return None
         state['n'] += 1
-        r = execute(prop_mod, 0, tier, replay=cand, wall_limit=60, opts=opts)
+        r = execute_isolated(prop_mod, pre, 0, tier, replay=cand, wall_limit=60, opts=opts)
         if r.status == 'violation' and r.vclass == vclass:
             return r
         return None
 
-    last = fails(best)
+    last = None
+    if prefix:
+        last = fails(best, [])
+        if last is not None:
+            prefix = []
     if last is None:
-        return None, None, state['n']
-    best = {k: list(v) for k, v in last.tape.items()}
+        last = fails(best, prefix)
+    if last is None:
+        return None, prefix, None, state['n']
+    # shrink the prefix (delta debugging, coarse to fine)
+    span = max(1, len(prefix) // 2)
+    while prefix and span >= 1 and state['n'] < budget:
+        i = 0
+        while i < len(prefix) and state['n'] < budget:
+            cand = prefix[:i] + prefix[i + span:]
+            r = fails(best, cand)
+            if r is not None:
+                prefix, last = cand, r
+            else:
+                i += span
+        span //= 2
+    if last.tape:
+        best = {k: list(v) for k, v in last.tape.items()}
 
     def attempt(cand):
         nonlocal best, last
-        r = fails(cand)
+        r = fails(cand, prefix)
         if r is not None:
-            # keep what was actually consumed
             best = {k: list(v) for k, v in r.tape.items()}
             last = r
             return True
@@ -35,8 +59,8 @@ def minimise(prop_mod, tape, vclass, tier='quick', budget=300, opts=None):
 
     # 1. canonical schedule / no faults
     for s in CANON_FIRST:
-        for s2 in [k for k in best if k.startswith(s)]:
-            if any(best[s2]):
+        for s2 in [k for k in list(best) if k.startswith(s)]:
+            if s2 in best and any(best[s2]):
                 c = dict(best)
                 c[s2] = []
                 attempt(c)
@@ -46,7 +70,7 @@ def minimise(prop_mod, tape, vclass, tier='quick', budget=300, opts=None):
     while improved and state['n'] < budget and rounds < 4:
         improved = False
         rounds += 1
-        for s in sorted(best, key=lambda k: (k not in CANON_FIRST, k)):
+        for s in sorted(list(best), key=lambda k: (not k.startswith(CANON_FIRST), k)):
             for span in (16, 8, 4, 2, 1):
                 i = 0
                 while s in best and i < len(best[s]) and state['n'] < budget:
@@ -70,4 +94,4 @@ def minimise(prop_mod, tape, vclass, tier='quick', budget=300, opts=None):
                         if attempt(c):
                             improved = True
                 i += 1
-    return best, last, state['n']
+    return best, prefix, last, state['n']
